@@ -60,8 +60,8 @@ ASSUMPTIONS = [
     "with a common function name (check_unique_method_keys): counted, not judged",
 ]
 EXHAUSTIVE = {
-    "quick": ["up to 19 fixed adversarial applications x 8 protocol families x every service order x every request kind"],
-    "thorough": ["up to 19 fixed adversarial applications x 8 protocol families x every service order x every request kind"],
+    "quick": ["up to 20 fixed adversarial applications x 8 protocol families x every service order x every request kind"],
+    "thorough": ["up to 20 fixed adversarial applications x 8 protocol families x every service order x every request kind"],
 }
 MAXTASKSPERCHILD = 2
 
@@ -450,9 +450,9 @@ def encode(spec, r, tns):
     if r["form"] == "other-ns":
         name = "{%s}%s" % (OTHER_NS, name)
     if fam == "http":
-        q = ""
-        if sh["arg"] is not None and not r.get("placeholder"):
-            q = "a=%s" % _argval(sh)
+        # 'a=7' is a valid query for methods without argument, with an Integer and with a Unicode
+        # argument alike: a misrouted request then shows as the wrong function running
+        q = "" if r.get("placeholder") else "a=7"
         path = r.get("path")
         if path is None:
             path = "/" + name
@@ -670,10 +670,13 @@ def judge(spec, ref, fam, r, exp, got, where):
                           desc + "; the name is not registered: expected a not-found Client fault"))
 
     local = name.split("}")[-1]
+    by_address = r["form"] == "pattern" and r["path"].count("/") != 1
+    if r["form"] == "pattern" and not by_address:
+        local = r["path"][1:]
     if exp[0] == "none":
         if ran:
             how = how_differs(local, r["form"], ref.public_of(ran[0]))
-            if r["form"] == "pattern":
+            if by_address:
                 how = r["kind"]          # the request names an address, not a method name
             fails.append(("C11|near-miss-invoked|%s|%s" % (fam, how),
                           desc + "; the name is not registered (registered: %r)" % (ref.names,)))
@@ -696,7 +699,7 @@ def judge(spec, ref, fam, r, exp, got, where):
         return fails
     others = [f for f in ran if f != prim and f not in aux]
     rel = how_differs(local, r["form"], ref.public_of(others[0])) if others else None
-    if others and r["form"] == "pattern":
+    if others and by_address:
         rel = r["kind"]
     if prim not in ran:
         if others:
@@ -1035,6 +1038,7 @@ def fixed_specs(prot):
         add([_svc("A", _m("k0", "str", bare=True, inmsg="z0"), _m("z0x")),
              _svc("A", _m("k1", "str", bare=True, inmsg="z0"), _m("Z0"))])
         add([_svc("A", _m("m0"), _m("m1", "int", bare=True, inmsg="m0")), _svc("B", _m("M0"))])
+        add([_svc("A", _m("k0", "int", bare=True, op="z0"), _m("Z0")), _svc("A", _m("z0"), _m("z0x"))])
         add([_svc("A", _m("m0", "int", bare=True), _m("m0x")), _svc("A", _m("m0", "int", bare=True))])
     if prot == "http":
         add([_svc("A", _m("d.e", patterns=[{"address": None, "verb": "GET"}]), _m("dXe"),
